@@ -87,6 +87,10 @@ class PropertyRun:
             self.unsupported(what, 'recursion limit: %s' % e)
             return []
         self.add_paths(paths)
+        for ctx, kind, val in paths:
+            if kind == 'raise' and not ctx.obligations:
+                self.undecided.append({'obligation': what, 'reason': 'a path of the harness ended in %s (%s) without '
+                                       'any obligation' % (val.exc_name, str(val.msg)[:200])})
         return paths
 
     def add(self, ob):
